@@ -7,7 +7,12 @@ package main
 // is the linear specification (what a fault-free run delivers).
 
 import (
+	"context"
+	"regexp"
+
+	"connectrpc.com/connect"
 	"fmt"
+	"github.com/streamingfast/substreams/service"
 	"os"
 	"path/filepath"
 	"strings"
@@ -107,6 +112,59 @@ func sysFaultScenario(seed uint64, idx int, root string, fixed string, enc *stri
 			res.fails = append(res.fails, [2]string{"C16/cache-after-faults-differs", fmt.Sprintf("after faults %v a second request gives %.300s, fault-free %.300s", desc, a2, refAns)})
 		}
 		out = append(out, res)
+	}
+	// ---- a module that fails deterministically at a block of the range: "the request ends with an invalid-argument error,
+	// everything delivered before the error is a correct prefix that stops before the failing block" — through the REAL
+	// error path: wasm panic -> BaseExecutor.wasmCall -> RunModule -> executeModules (sequential or concurrent layer) ->
+	// handleStepNew -> tier 2's toGRPCError -> RemoteWorker -> scheduler -> tier 1's toConnectError
+	if used := w.UsedMods(sc.Output); sc.Stop > sc.Start {
+		fm := used[rng.Intn(len(used))]
+		fb := sc.Start + uint64(rng.Intn(int(sc.Stop-sc.Start)))
+		w2 := sys.Decode(w.Encode())
+		w2.Mod(fm).FailAt = int64(fb)
+		base2 := fmt.Sprintf("LIN %d %s %s %d %d", sqe.MaxRecursionDeepness, w2.Encode(), sc.Output, sc.Start, sc.Stop)
+		for _, prod := range []bool{false, true} {
+			d := filepath.Join(dir, fmt.Sprintf("det%v", prod))
+			r := w2.Run(d, sc.Req(prod, rng.Range(1, 2)), sys.Opts{Sched: rng.Fork(), RealWorker: prod, Timeout: 20 * time.Second, NoTimeoutRetry: true})
+			res := sysRes{line: fmt.Sprintf("%s | det-fail %s@%d prod=%v", base2, fm, fb, prod), counts: []string{"sys:deterministic"}}
+			if prod {
+				res.line += " failonly"
+			}
+			failedAt := ""
+			if r.Err != nil {
+				if mm := regexp.MustCompile(`block (\d+): module`).FindStringSubmatch(r.Err.Error()); mm != nil {
+					failedAt = mm[1]
+				}
+			}
+			switch {
+			case r.Err == nil:
+				res.ans = sysNonEmpty(r)
+				res.counts = append(res.counts, "sys:deterministic:not-reached")
+			case failedAt != "":
+				code := connect.CodeOf(service.VerifToConnectError(context.Background(), r.Err))
+				res.counts = append(res.counts, "sys:deterministic:code:"+code.String())
+				if prod {
+					res.ans = "fail@" + failedAt
+				} else {
+					rr := *r
+					rr.Err = nil
+					res.ans = sysNonEmpty(&rr) + " fail@" + failedAt
+				}
+				if code != connect.CodeInvalidArgument {
+					res.fails = append(res.fails, [2]string{"C16/deterministic-failure-not-invalid-argument", fmt.Sprintf("module %s fails at block %d (prod=%v): the client gets %s: %.300v", fm, fb, prod, code, r.Err)})
+				}
+				// everything delivered is a prefix of the fault-free stream and stops before the failing block
+				for _, m := range r.Msgs {
+					if m.Kind == "data" && m.Num >= common.Atou(failedAt) {
+						res.fails = append(res.fails, [2]string{"C16/block-delivered-at-or-after-the-failing-block", fmt.Sprintf("block %d delivered although module %s failed at %s", m.Num, fm, failedAt)})
+					}
+				}
+			default:
+				res.ans = sysNonEmpty(r)
+				res.fails = append(res.fails, [2]string{"C16/deterministic-failure-not-invalid-argument", fmt.Sprintf("module %s fails at block %d (prod=%v, retries %d): the request ends with %.300v", fm, fb, prod, r.Retries, r.Err)})
+			}
+			out = append(out, res)
+		}
 	}
 	return out
 }
